@@ -523,8 +523,6 @@ func (g *GoBackNConn) receivePacketsForever() error { // nolint:gocyclo
 			g.pongTicker.Pause()
 		}
 
-		g.resendTicker.Reset(g.timeoutManager.GetResendTimeout())
-
 		switch m := msg.(type) {
 		case *PacketData:
 			switch m.Seq == g.recvSeq {
@@ -612,6 +610,18 @@ func (g *GoBackNConn) receivePacketsForever() error { // nolint:gocyclo
 		case *PacketACK:
 			gotValidACK := g.sendQueue.processACK(m.Seq)
 			if gotValidACK {
+				// The peer acknowledged something new, so we
+				// restart the resend timer. We only do this
+				// for packets that acknowledge data of ours:
+				// restarting it on every received packet would
+				// let the peer's pings or unrelated data
+				// postpone the retransmission of a lost packet
+				// for as long as they keep arriving more often
+				// than the resend timeout.
+				g.resendTicker.Reset(
+					g.timeoutManager.GetResendTimeout(),
+				)
+
 				// Send a signal to indicate that new
 				// ACKs have been received.
 				select {
